@@ -197,6 +197,22 @@ def url_signature(text, enclose_urls):
     return None
 
 
+LOSSY_LETTERS = "\u0126\u0127\u0138\u013f\u0140\u0149\u0166\u0167\u0170\u0171"   # Ħ ħ ĸ Ŀ ŀ ŉ Ŧ ŧ Ű ű
+
+
+def lossy_letter_signature(text, r):
+    """Known finding: ten accented Latin letters for which the third-party tables are not inverse to each other.  Matched
+    only when the text holds one of them and the result differs from the text in nothing but those letters' positions."""
+    if not any(c in LOSSY_LETTERS for c in text) or "error_block" in r:
+        return None
+    import re as _re
+    pat = "".join("(?s:.{1,3})" if c in LOSSY_LETTERS else _re.escape(c) for c in text)
+    for got in (r.get("field"), r.get("string")):
+        if not isinstance(got, str) or not _re.fullmatch(pat, got):
+            return None
+    return {"id": "C18-letters-lossy-in-pylatexenc-tables"}
+
+
 def roundtrip(bib, text, eo, history=False):
     m = bib.middlewares
     M = bib.model
@@ -209,7 +225,8 @@ def roundtrip(bib, text, eo, history=False):
         lib = m.LatexEncodingMiddleware(allow_inplace_modification=True).transform(lib)
         lib = m.LatexDecodingMiddleware(allow_inplace_modification=True).transform(lib)
         if not isinstance(lib.blocks[0], M.Entry) or not isinstance(lib.blocks[1], M.String):
-            raise core.MachineryError("C18 history prelude failed")
+            # (the prelude text converts fine on its own: error blocks here are a verdict, not a machinery failure)
+            return {"error_block": [type(b).__name__ for b in lib.blocks], "encoded": None, "in": "the decode/encode past of the blocks"}
         lib.blocks[0].fields[0].value = text
         lib.blocks[1].value = text
     enc = m.LatexEncodingMiddleware(allow_inplace_modification=False, **eo).transform(lib)
@@ -231,7 +248,7 @@ def check_rt(chk, bib, text, eo):
         return
     if r.get("field") != text or r.get("string") != text:
         chk.mismatch("round_trip", {"kind": "text", "text": text, "encoder_options": eo}, r, {"field": text, "string": text},
-                     signature=url_signature(text, eo.get("enclose_urls", True) is not False),
+                     signature=url_signature(text, eo.get("enclose_urls", True) is not False) or lossy_letter_signature(text, r),
                      spec={"module": "MC_LatexRT", "operator": "Dec(Enc(t)) = t"}, kind="text")
 
 
@@ -342,6 +359,15 @@ def run(chk: core.Check):
             continue
         nrt += 1
         check_rt(chk, bib, text, eo)
+    # every accented Latin letter (Latin-1 Supplement, Extended-A, Extended-B, Extended Additional), one at a time
+    import unicodedata
+    for cp in list(range(0xC0, 0x250)) + list(range(0x1E00, 0x1F00)):
+        c = chr(cp)
+        if not unicodedata.category(c).startswith("L"):
+            continue
+        for text, eo in ((c, {}), (f"a{c}b {c}.", {"keep_math": False, "enclose_urls": False})):
+            nrt += 1
+            check_rt(chk, bib, text, eo)
     chk.traces += nrt
     chk.evaluations += nrt + n + nreal
     chk.clause("T2'.round_trip", nrt)
